@@ -154,7 +154,7 @@ pub fn slices() -> Vec<Slice> {
         grammar: Grammar {
             atoms: vec![id("a"), id("c"), id("s"), int(0), int(1), string("y")],
             prefix: vec![Operator::Subtract],
-            index_bases: vec![id("a"), id("c"), id("s")],
+            index_bases: vec![id("a"), id("c"), id("s"), string("y")],
             index_set: true,
             builtins: vec![("lengte".into(), 1)],
             array_max: 2,
@@ -186,6 +186,36 @@ pub fn slices() -> Vec<Slice> {
         },
         bound: (4, 5),
         in_func: true,
+    });
+
+    // gc: functions that create, return, receive, store and drop floats, strings and arrays, called
+    // from operand, argument and array-literal positions (a collection runs at every return)
+    v.push(Slice {
+        name: "gc",
+        prelude: vec![
+            es(func("mk", &["x"], vec![es(array(vec![id("x"), flt(2.5)]))])),
+            es(func("idt", &["x"], vec![es(id("x"))])),
+            es(func("cat", &["x", "y"], vec![let_("t", array(vec![id("x"), id("y")])), es(id("t"))])),
+            es(func("drp", &["x"], vec![let_("u", string("tmp")), let_("w", id("x"))])),
+            let_("g", array(vec![flt(1.5), string("u")])),
+        ],
+        wrap: None,
+        grammar: Grammar {
+            atoms: vec![flt(0.5), string("t"), id("g")],
+            infix: vec![Operator::Add],
+            index_bases: vec![id("g")],
+            index_set: true,
+            assign_names: names(&["g"]),
+            let_names: names(&["c"]),
+            callees: vec![("mk".into(), 1), ("idt".into(), 1), ("cat".into(), 2), ("drp".into(), 1)],
+            builtins: vec![("string".into(), 1)],
+            array_max: 2,
+            max_stmts: 2,
+            max_expr: 6,
+            ..Default::default()
+        },
+        bound: (5, 6),
+        in_func: false,
     });
 
     // builtin: the seven builtins over values of every type
